@@ -34,12 +34,20 @@ def confirm(d):
         r = sh("cargo test --workspace --no-fail-fast --offline", cwd=wt)
         res["suite_green"] = r.returncode == 0 and "32 passed" in r.stdout
         if os.path.exists(demo):
-            os.makedirs(os.path.join(wt, "ipp/tests"), exist_ok=True)
-            shutil.copy(demo, os.path.join(wt, "ipp/tests/demo.rs"))
-            r = sh("cargo test -p ipp --test demo --offline", cwd=wt)
-            res["demo_fails_with_mutant"] = r.returncode != 0 and "test result: FAILED" in r.stdout
+            # optional demo.json: {"dest": "util/tests/demo.rs", "cmd": "cargo test …", "pre": "shell command run in the worktree first"}
+            dj = {}
+            if os.path.exists(os.path.join(os.path.abspath(d), "demo.json")):
+                dj = json.load(open(os.path.join(os.path.abspath(d), "demo.json")))
+            dest = os.path.join(wt, dj.get("dest", "ipp/tests/demo.rs"))
+            cmd = dj.get("cmd", "cargo test -p ipp --test demo --offline")
+            os.makedirs(os.path.dirname(dest), exist_ok=True)
+            shutil.copy(demo, dest)
+            if dj.get("pre"):
+                sh(dj["pre"], cwd=wt)
+            r = sh(cmd, cwd=wt)
+            res["demo_fails_with_mutant"] = r.returncode != 0 and ("test result: FAILED" in r.stdout or "panicked" in (r.stdout + r.stderr))
             sh(f"git -C {wt} apply -R {patch}")
-            r = sh("cargo test -p ipp --test demo --offline", cwd=wt)
+            r = sh(cmd, cwd=wt)
             res["demo_passes_without"] = r.returncode == 0
         else:
             res["demo"] = "no demo.rs (see notes.md)"
@@ -83,7 +91,8 @@ def detect(d, props):
                     break
     finally:
         sh("git -C /repo checkout -- .")
-    # leave evidence as it was produced on the unchanged tree: re-run is the caller's business
+        # evidence written while a mutant was applied is not evidence about the unchanged tree: restore the committed files
+        sh("git -C /verif checkout -- evidence")
     return 0
 
 
